@@ -331,6 +331,39 @@ def normalise(mod: str, src: str, log: list) -> str:
     for m in re.finditer(r"\|_\|", masked):
         edits.append((m.start(), m.end(), "|_u|"))
         log.append({"rule": "N3", "file": "src/%s.rs" % mod, "line": lineno(m.start()), "what": "`|_|` -> `|_u|`"})
+    # N3b closure parameter pattern  |&x| EXPR  ->  |x__r| { let x = *x__r; EXPR }   (expression-bodied closures only)
+    for m in re.finditer(r"\|&([a-z_][a-z0-9_]*)\|", masked):
+        b = m.end()
+        while masked[b].isspace():
+            b += 1
+        if masked[b] == "{":
+            continue
+        depth, e = 0, b
+        while e < len(masked):
+            ch = masked[e]
+            if ch in "([{":
+                depth += 1
+            elif ch in ")]}":
+                if depth == 0:
+                    break
+                depth -= 1
+            elif ch in ",;" and depth == 0:
+                break
+            e += 1
+        x = m.group(1)
+        edits.append((m.start(), m.end(), "|%s__r|" % x))
+        edits.append((b, b, "{ let %s = *%s__r; " % (x, x)))
+        edits.append((e, e, " }"))
+        log.append({"rule": "N3", "file": "src/%s.rs" % mod, "line": lineno(m.start()),
+                    "what": "`|&%s| e` -> `|%s__r| { let %s = *%s__r; e }`" % (x, x, x, x)})
+    # N5  [if] let PAT = RECV.iter().find|position(CLOSURE)  ->  let mut NAME__it = RECV.iter(); [if] let PAT = NAME__it.find|position(CLOSURE)
+    #     (the receiver temporary gets a name, so that ghost code can speak about the iterator the search runs over;
+    #      slice::Iter has no Drop, evaluation order is unchanged)
+    for m in re.finditer(r"\b(if[ \t]+)?let[ \t]+((?:Some\()?([a-z_][a-z0-9_]*)\)?)[ \t]*=[ \t]*([A-Za-z_][A-Za-z0-9_\.]*)\.iter\(\)\.(find|position)\(", masked):
+        iff, pat, name, recv, meth = m.group(1) or "", m.group(2), m.group(3), m.group(4), m.group(5)
+        edits.append((m.start(), m.end(), "let mut %s__it = %s.iter(); %slet %s = %s__it.%s(" % (name, recv, iff, pat, name, meth)))
+        log.append({"rule": "N5", "file": "src/%s.rs" % mod, "line": lineno(m.start()),
+                    "what": "`%slet %s = %s.iter().%s(..)` -> `let mut %s__it = %s.iter(); %slet %s = %s__it.%s(..)`" % (iff, pat, recv, meth, name, recv, iff, pat, name, meth)})
     # D4 Debug derive on non-Copy structs
     for m in re.finditer(r"#\[derive\(Debug, Clone\)\]", masked):
         edits.append((m.start(), m.end(), "#[derive(Clone)]"))
@@ -689,7 +722,7 @@ def extract(out_path: str, report_path: str, contracts_dir=None, modules=None, h
         mods = [m for m in mods if m in modules]
     parts = ["// GENERATED by /verif/tools/extract.py from %s/src -- do not edit\n" % REPO,
              "#![allow(unused_imports, dead_code, unused_variables, unused_mut, unused_parens, non_snake_case)]\n",
-             "#![feature(allocator_api)]\n",
+             "#![feature(allocator_api)]\n", "#![feature(slice_concat_trait)]\n",
              "use vstd::prelude::*;\n"]
     for extra in ("std", "model"):
         p = os.path.join(contracts_dir, extra + ".vspec")
